@@ -235,7 +235,10 @@ def judge_patch(base, diff, py, ts):
 
 def run(tier, seed):
     chk = core.Check(PROP, tier, seed)
-    b = core.build()
+    # Gen/*.v and the model files the correspondence needs are (re)built under ONE hold of the build lock, so that a
+    # concurrent check of another property (which regenerates Gen from its own NBDIME_REPO) cannot slip in between
+    b = core.build(targets=['Ts/TsRun.vo'])
+    gen_actions = read_gen_actions()
     proofs_ok = chk.proof_obligations('Props/C15.v', b)
     node = c15_node.find_node()
     pairs, triples, splits = gen_cases(chk, tier)
@@ -272,7 +275,6 @@ def run(tier, seed):
         emitted_seen = set()
         for c in mcases:
             for d in c['decisions']: emitted_seen.add(d.get('action'))
-        gen_actions = read_gen_actions()
         if not static_only:
             ntasks = [{'op': 'patch', 'base': c['base'], 'diff': c['diff']} for c in pcases] + \
                      [{'op': 'apply', 'base': c['base'], 'decisions': c['decisions']} for c in mcases] + \
